@@ -1,2 +1,102 @@
-(* C20 placeholder *)
-From MsiModel Require Import Base.
+(* C20 -- Capacity limits are enforced as errors, and symmetrically.
+   The limits are generated constants (32 columns, 65,536 rows both in the reader and in INSERT, 31 packed name units,
+   two- and three-byte reference ranges).  Over-limit calls: more than 32 columns is an argument error of create_table
+   that returns the package itself; an INSERT that succeeds never exceeds the row limit the reader enforces, so the
+   library always reads what it wrote (with the save/reopen theorem of C01); accepted names fit the container; names the
+   catalog cannot hold are refused before anything changes (C04_create_table_err).  Within the limits: insert_accepts.
+   The one limit that is a panic, not an error, is the 65,536th distinct string under two-byte references: known finding
+   pool_full_panic, witnessed here by C20_pool_full_refuted.
+   Statements only; every proof is `exact <lemma>` from theories/. *)
+From Coq Require Import Sorting.Sorted Permutation.
+From MsiModel Require Import Base Sexp Value Expr Category Column CodePage Pool Table Container StreamName Propset Summary Query Package PoolProofs TableProofs QueryProofs DbInv InsertRefine PackageProofs Limits.
+From MsiGen Require Import GenConsts GenCatalog GenStreamName.
+Open Scope N_scope.
+
+(* the limits in the source now *)
+Theorem C20_limits :
+  MAX_NUM_TABLE_COLUMNS = 32 /\
+         MAX_ROWS_READ = 65536 /\
+         MAX_ROWS_INSERT = Some 65536 /\
+         SN_MAX_UNITS = 31 /\ MAX_STRING_REF = 16777215 /\ LONG_STRING_REFS_BIT = 2147483648.
+Proof. exact limits_pinned. Qed.
+
+(* > 32 columns, no key, bad names ...: Err and the package itself is returned *)
+Theorem C20_columns_and_arguments :
+  forall (prof : profile) (k : pkg) (tn : str) (cols : list column),
+         is_valid_tname tn = false \/
+         existsb (str_eqb tn) CREATE_TABLE_EXTRA_RESERVED = true \/
+         cols = [] \/
+         MAX_NUM_TABLE_COLUMNS < nlen cols \/
+         existsb c_pk cols = false \/ first_dup_or_bad cols [] = false \/ find_table (k_tabs k) tn <> None ->
+         pkg_create_table prof k tn cols = (k, Err).
+Proof. exact create_table_arg_errors. Qed.
+
+(* a successful INSERT leaves at most as many rows as the reader accepts *)
+Theorem C20_rows_symmetric :
+  forall (prof : profile) (c : container) (p : pool) (ts : tables) (tn : str) (rows : list (list value))
+           (c' : container) (p' : pool),
+         exec_insert prof c p ts tn rows = Ok (c', p') ->
+         exists (t : table) (old : list (list vref)),
+           find_table ts tn = Some t /\ load_rows c t = Ok old /\ nlen old + nlen rows <= MAX_ROWS_READ.
+Proof. exact insert_within_row_limit. Qed.
+
+(* one more row than the limit is never accepted *)
+Theorem C20_rows_rejected :
+  forall (prof : profile) (c : container) (p : pool) (ts : tables) (tn : str) (t : table)
+           (rows : list (list value)) (old : list (list vref)),
+         find_table ts tn = Some t ->
+         load_rows c t = Ok old ->
+         MAX_ROWS_READ < nlen old + nlen rows ->
+         forall (c' : container) (p' : pool), exec_insert prof c p ts tn rows <> Ok (c', p').
+Proof. exact insert_over_row_limit_rejected. Qed.
+
+(* up to the limit, what is written is read back *)
+Theorem C20_rows_read_back :
+  forall (prof : profile) (t : table) (rows : list (list vref)),
+         t_cols t <> [] ->
+         Forall (row_ok t) rows ->
+         nlen rows <= MAX_ROWS_READ ->
+         exists bs : bytes,
+           write_rows prof t rows = Ok bs /\ nlen bs = nlen rows * row_size t /\ read_rows t bs = Ok rows.
+Proof. exact rows_roundtrip. Qed.
+
+(* accepted names fit the container's 31 units *)
+Theorem C20_names_fit :
+  forall (n : str) (b : bool), sn_is_valid n b = true -> utf16_len (sn_encode n b) <= SN_MAX_UNITS.
+Proof. exact valid_name_units. Qed.
+
+(* valid rows with new keys, within the row and pool limits, are accepted *)
+Theorem C20_within_limits_accepted :
+  forall (prof : profile) (d : db) (tn : str) (t : table) (rows old : list (list value)),
+         Inv d ->
+         In (tn, t) (d_tabs d) ->
+         find_table (d_tabs d) tn = Some t ->
+         tvals prof d t = Ok old ->
+         sorted_by_key t old ->
+         Forall (fun r : list value => length r = length (t_cols t) /\ all_valid (t_cols t) r = Ok true) rows ->
+         NoDup (map (key_of t) (old ++ map (map normalize_value) rows)) ->
+         nlen old + nlen rows <= 65536 ->
+         nlen (p_strings (d_pool d)) + nlen (List.concat rows) < 65535 ->
+         exists (c' : container) (p' : pool), exec_insert prof (d_cont d) (d_pool d) (d_tabs d) tn rows = Ok (c', p').
+Proof. exact insert_accepts. Qed.
+
+(* below 65,535 entries interning never panics *)
+Theorem C20_pool_room :
+  forall (prof : profile) (p : pool) (s : str),
+         pool_wf p -> nlen (p_strings p) < 65535 -> exists (p' : pool) (r : N), pool_incref prof p s = Ok (p', r).
+Proof. exact pool_room_no_panic. Qed.
+
+(* known finding: at 65,535 entries one more distinct string panics *)
+Theorem C20_pool_full_refuted :
+  pool_incref Release full_pool [98] = Panic /\ nlen (p_strings full_pool) = 65535.
+Proof. exact pool_full_panics. Qed.
+
+Print Assumptions C20_limits.
+Print Assumptions C20_columns_and_arguments.
+Print Assumptions C20_rows_symmetric.
+Print Assumptions C20_rows_rejected.
+Print Assumptions C20_rows_read_back.
+Print Assumptions C20_names_fit.
+Print Assumptions C20_within_limits_accepted.
+Print Assumptions C20_pool_room.
+Print Assumptions C20_pool_full_refuted.
